@@ -65,7 +65,11 @@ KERNELS = {k["name"]: k for k in SPEC["kernels"]}
 WITH_DEF = sorted(name for name, k in KERNELS.items() if "def " in (k["definition"] or "")
                   and not any("List[List" in a["type"] for s in k["specializations"] for a in s["args"]))
 NS = {}
-exec("from numpy import uint8\nkMaxInt64 = 9223372036854775806\nkSliceNone = kMaxInt64 + 1\n", NS)
+# uint8(x): the definitions use it only to spell the bit constants of the bit-mask kernels ("byte & uint8(128)").  NumPy 2
+# raises OverflowError when a Python int that has outgrown 8 bits ("byte <<= 1") meets a numpy uint8, which made every
+# most-significant-bit-first case with a high bit set look "outside the definition's domain"; a plain masked int keeps the
+# C meaning (bit 7 of the unbounded integer is bit 7 of the wrapped byte).
+exec("def uint8(x):\n    return int(x) & 0xFF\nkMaxInt64 = 9223372036854775806\nkSliceNone = kMaxInt64 + 1\n", NS)
 NORMALISED = set()
 for _name in WITH_DEF:
     _k = KERNELS[_name]
@@ -264,9 +268,19 @@ def arg_tuple(draw, kname):
             args[name] = draw(st.lists(st.integers(lo, 6), min_size=L, max_size=L))
         elif member in ("index", "nextcarry", "nextparents", "carry"):
             L = listlen()
-            lo = 0 if any(t.startswith("uint") for t in types) else -1
+            unsigned = any(t.startswith("uint") for t in types)
+            lo = 0 if unsigned else -1
             inrange = draw(st.integers(0, 9)) > 0
-            args[name] = draw(st.lists(st.integers(lo, max(lo, (m - 1) if inrange else m + 1)), min_size=L, max_size=L))
+            vals = draw(st.lists(st.integers(lo, max(lo, (m - 1) if inrange else m + 1)), min_size=L, max_size=L))
+            # "any negative index is missing": not only -1 (added after the seeded change C13-a, which treated only -1 as
+            # missing, was not met); for unsigned index types the largest representable value takes that corner
+            if member == "index" and L > 0 and draw(st.integers(0, 3)) == 0:
+                k = draw(st.integers(0, L - 1))
+                if not unsigned:
+                    vals[k] = draw(st.sampled_from([-2, -3, -7, -(2 ** 31)]))
+                elif any(t == "uint32_t" for t in types):
+                    vals[k] = 2 ** 32 - 1
+            args[name] = vals
         else:
             L = listlen()
             lo = 0 if any(t.startswith("uint") for t in types) else -1
